@@ -78,7 +78,7 @@ static std::vector<std::string> enabled_ops(const Model &m, int nslots) {
     ops.push_back("F" + si);
     for (size_t d = 0; d < POOL.text.size(); d++) ops.push_back("D" + si + std::to_string(d));
     for (int mm = 0; mm < 5; mm++) ops.push_back("M" + si + std::to_string(mm));
-    for (int in = 0; in < 4; in++) ops.push_back("P" + si + std::to_string(in));
+    for (int in = 0; in < 5; in++) ops.push_back("P" + si + std::to_string(in));   // 4 = NULL parse_alloc with a parse_free
     if (m.s[i].tree) ops.push_back("T" + si);
   }
   return ops;
@@ -195,6 +195,14 @@ static HistRes run_history(const std::string &hist, int nslots, bool verbose) {
     case 'P': {
       int in = op[2] - '0';
       int d = m.s[s].def;
+      if (in == 4) {   // NULL allocator with a free function: YAEP_NO_MEMORY whatever the state of the object
+        std::vector<int> none; g_tok.codes = &none; g_tok.i = 0; struct yaep_tree_node *root = NULL; int amb = 0;
+        int rc = vy_parse(obj[s], cb_read_token, cb_syntax_error, NULL, trk_free, &root, &amb);
+        ob = "rc=" + std::to_string(rc);
+        if (rc != YAEP_NO_MEMORY) V("C15", "null-alloc", done, "yaep_parse with NULL parse_alloc and non-NULL parse_free returned " + std::to_string(rc));
+        else { m.s[s].last_err = rc; if (vy_error_code(obj[s]) != rc || !*vy_error_message(obj[s])) V("C15", "error-code-after-failure", done, "yaep_error_code = " + std::to_string(vy_error_code(obj[s])) + ", message \"" + vy_error_message(obj[s]) + "\" after YAEP_NO_MEMORY on this object"); }
+        break;
+      }
       const std::vector<int> &toks = POOL.inputs[d < 0 ? 0 : d][in];
       if (m.s[s].tree) { /* previous tree of this slot stays alive: two trees alive; it is dropped from the model (still tracked for leaks at the end) */ }
       ParseObs o;
@@ -255,7 +263,7 @@ static Model model_after(const std::string &hist) {
     case 'F': m.s[s].exists = false; break;
     case 'D': m.s[s].def = op[2] - '0'; break;
     case 'M': set_mode(m.s[s].fl, op[2] - '0'); break;
-    case 'P': { int d = m.s[s].def; int in = op[2] - '0'; bool usable = d >= 0 && POOL.good[d]; if (usable && in != 2) m.s[s].tree = true; break; }
+    case 'P': { int d = m.s[s].def; int in = op[2] - '0'; bool usable = d >= 0 && POOL.good[d]; if (usable && in != 2 && in != 4) m.s[s].tree = true; break; }
     case 'T': m.s[s].tree = false; break;
     }
   }
@@ -335,12 +343,13 @@ static std::vector<WorkRes> run_many(const std::vector<std::string> &items, int 
   return res;
 }
 
+static std::string g_crash_prop = "C14";
 static void record(const WorkRes &w, const std::string &prop_filter, Report &rep) {
   auto emit = [&](const std::string &prop, const std::string &kind, const std::string &step, const std::string &detail) {
     if (!prop_filter.empty() && prop_filter.find(prop) == std::string::npos) { rep.add("violations_of_other_properties_seen"); return; }
     rep.viol("{\"property\":" + jstr(prop) + ",\"kind\":" + jstr(kind) + ",\"engine\":\"hist\",\"case\":" + jstr("hist=" + w.hist) + ",\"grammar\":" + jstr("failing prefix " + step) + ",\"detail\":" + jstr(detail) + "}");
   };
-  if (w.crashed) { emit("C14", "crash", w.hist, w.crash); return; }
+  if (w.crashed) { emit(g_crash_prop, "crash", w.hist, w.crash); return; }
   for (auto &v : w.viols) { auto f = split(v, '\t'); if (f.size() >= 4) emit(f[0], f[1], f[2], f[3]); else emit("C14", "malformed", w.hist, v); }
 }
 
@@ -432,6 +441,7 @@ int eng_hist_main(int argc, char **argv) {
   POOL = make_pool();
   int nslots = (int) a.geti("slots", 2), full_depth = (int) a.geti("full", 4), bfs_depth = (int) a.geti("bfs", 7), par = (int) a.geti("par", 16), timeout = (int) a.geti("timeout", 20);
   std::string props = a.get("props", "");
+  g_crash_prop = a.get("crash-prop", props.find("C15") == 0 ? "C15" : "C14");
   long maxstates = a.geti("maxstates", 400000);
   double deadline = a.has("deadline") ? now_s() + a.geti("deadline", 0) : 0;
   // expectations on fresh objects
